@@ -254,3 +254,10 @@ def run(ctx):
     # truthiness silently drops the errors of the boolean schema false
     from .c01 import rule_schema_not_a_condition
     rule_schema_not_a_condition(ctx, "R5.10")
+    # R5.11: "... with identical messages, instance paths, schema paths and contexts": on the same tables, every forwarded error
+    # carries the index / member name of the part and of the subschema that produced it
+    rule_applicators(ctx, "R5.11", "paths")
+    # R5.12: additionalProperties consults properties and patternProperties as the draft defines it: the leftover members are the
+    # complement of the named ones and of those some pattern matches, each pattern a regular expression of its own
+    from .c01 import rule_additional_complement
+    rule_additional_complement(ctx, "R5.12")
